@@ -1759,6 +1759,41 @@ fn catalogue_fleet(c: &mut Cat) {
             true
         });
     }
+    // E1302 quantifies over the whole shift list of a type ("time windows rules defined for jobs in E1103": the windows must not
+    // intersect), in any order of listing: three shifts of which the first and the last intersect, with a disjoint one in between
+    for (name, role, offsets) in [
+        ("shifts-three-first-and-last-intersect", Breaker, [(0i64, 1000i64), (2000, 3000), (500, 1500)]),
+        ("shifts-three-identical-first-and-last", Breaker, [(2000, 3000), (0, 1000), (2000, 3000)]),
+        ("shifts-three-disjoint-listed-out-of-order", Near, [(4000, 5000), (0, 1000), (2000, 3000)]),
+    ] {
+        c.add(name, "fleet.vehicles[].shifts", "E1302", role, move |d, rng| {
+            let n = list(&d.problem["fleet"], "vehicles").len();
+            let v = rng.usize_below(n);
+            let mine: Vec<String> = vehicle_ids(d).into_iter().filter(|x| x.0 == v).map(|x| x.1).collect();
+            // relations pin jobs to a shift of the vehicle: leave such types alone
+            if list(&d.problem["plan"], "relations").iter().any(|r| mine.iter().any(|m| r["vehicleId"].as_str() == Some(m))) {
+                return false;
+            }
+            let Some(first) = list(&d.problem["fleet"]["vehicles"][v], "shifts").first().cloned() else { return false };
+            let Some((st, Some(_))) = shift_times(&first) else { return false };
+            let mut shifts = Vec::new();
+            for (a, b) in offsets {
+                let mut sh = first.clone();
+                let o = obj(&mut sh);
+                // breaks / reloads / recharges carry absolute times of the original shift
+                o.remove("breaks");
+                o.remove("reloads");
+                o.remove("recharges");
+                sh["start"]["earliest"] = json!(t(st + a));
+                obj(&mut sh["start"]).remove("latest");
+                sh["end"]["latest"] = json!(t(st + b));
+                obj(&mut sh["end"]).remove("earliest");
+                shifts.push(sh);
+            }
+            d.problem["fleet"]["vehicles"][v]["shifts"] = Value::Array(shifts);
+            true
+        });
+    }
     c.add("shift-end-equals-start", "fleet.vehicles[].shifts[].end.latest", "E1302", Near, |d, rng| {
         let Some((p, st, _)) = pick_shift(d, rng, true, &|_, _| true) else { return false };
         ptr_mut(d, &p)["end"]["latest"] = json!(t(st));
